@@ -438,7 +438,8 @@ func (fr *Frame) oblige(kind, detail, cond string, clause string) {
 		}
 		return
 	}
-	if c := x.w.contracts[x.fnKey]; c != nil && c.Lenient && kind != "guard" && kind != "inv-init" && kind != "inv-pres" && kind != "post" && kind != "closure-pre" {
+	if c := x.w.contracts[x.fnKey]; c != nil && c.Lenient && kind != "guard" && kind != "inv-init" && kind != "inv-pres" && kind != "post" && kind != "closure-pre" &&
+		!(c.Bounds && (kind == "safe:index" || kind == "safe:slice" || kind == "safe:makelen")) {
 		// lenient contracts claim their call-site guards and checks only (and prove the loop
 		// invariants those rest on, and any ensures clause, which callers rely on); safety
 		// conditions, frames and callee preconditions are assumed
